@@ -178,7 +178,7 @@ func classifyRecord(b []byte) recExpect {
 	return recExpect{Members: []memberClass{classifyMember(json.RawMessage(t))}}
 }
 
-var c02Known = map[string]bool{"ok": true, "fail": true}
+var c02Known = map[string]bool{"ok": true, "fail": true, "x.rpc.ok": true} // "x.rpc.ok": an ordinary name that merely contains "rpc."
 
 // c02Judge runs one record through a fresh server and compares with the classifier.
 // It returns a class string for coverage accounting and the violations.
@@ -212,6 +212,16 @@ func c02RunOne(record []byte, push bool, prefix []int, mapOrders bool) (*vs.Exec
 			peer.Send([]byte(`{"jsonrpc":"2.0","id":"probe","method":"probe"}`))
 			vs.AwaitQuiescence()
 			vs.Note("quiet", "after-probe")
+			// every id the record used is free again once the record has been answered: whatever became
+			// of the member that carried it (served, unknown method, invalid, refused as duplicate)
+			for _, m := range classifyRecord(record).Members {
+				if (m.IsCall || m.Invalid) && m.EchoID != "" && m.EchoID != "null" {
+					peer.Send([]byte(`{"jsonrpc":"2.0","id":` + m.EchoID + `,"method":"probe"}`))
+					vs.AwaitQuiescence()
+					vs.Note("reuse-probe", m.EchoID)
+				}
+			}
+			vs.Note("quiet", "after-reuse")
 			peer.Close()
 		})
 		st := srv.WaitStatus()
@@ -239,6 +249,20 @@ func c02RunOne(record []byte, push bool, prefix []int, mapOrders bool) (*vs.Exec
 		} else {
 			probeOuts = append(probeOuts, o)
 		}
+	}
+	// ids are free again after the record
+	if q2 := findEv(x, 0, "quiet", "after-probe"); q2 >= 0 {
+		var rest []outRec
+		for _, o := range probeOuts {
+			if o.At < q2 {
+				rest = append(rest, o)
+				continue
+			}
+			if strings.Contains(o.Raw, `"error"`) {
+				fail("C02.R1", "after the record had been answered, a call re-using an id of one of its members was refused: "+o.Raw)
+			}
+		}
+		probeOuts = rest
 	}
 	// R5: still serving
 	if len(probeOuts) != 1 || !strings.Contains(probeOuts[0].Raw, `"id":"probe"`) || !strings.Contains(probeOuts[0].Raw, `"result"`) {
@@ -364,7 +388,7 @@ func c02RunOne(record []byte, push bool, prefix []int, mapOrders bool) (*vs.Exec
 					if codeOf(*r) != -32601 {
 						fail("C02.R1", fmt.Sprintf("unknown or reserved method %q must yield -32601, got %s", m.Method, r.Raw))
 					}
-				case m.Method == "ok":
+				case m.Method == "ok" || m.Method == "x.rpc.ok":
 					wantHandlers++
 					if r.Str("result") != `"R"` {
 						fail("C02.R1", fmt.Sprintf("call of %q must yield the handler's result, got %s", m.Method, r.Raw))
@@ -498,7 +522,7 @@ func c02Explore(r *SeqRun, record []byte, push, allOrders bool) {
 var (
 	c02Ver    = []string{"", `"jsonrpc":"2.0"`, `"jsonrpc":"1.0"`, `"jsonrpc":2`, `"jsonrpc":null`, `"jsonrpc":["2.0"]`, `"JSONRPC":"2.0"`}
 	c02ID     = []string{"", `"id":7`, `"id":-3`, `"id":0`, `"id":1.5`, `"id":1e3`, `"id":"s"`, `"id":""`, `"id":"1"`, `"id":null`, `"id":true`, `"id":[1]`, `"id":{}`, `"ID":7`, `"id":3,"Id":4`}
-	c02Method = []string{"", `"method":"ok"`, `"method":"fail"`, `"method":""`, `"method":"nope"`, `"method":"rpc.serverInfo"`, `"method":"rpc.nope"`, `"method":"rpc.a.b"`, `"method":5`, `"method":null`, `"method":["ok"]`, `"Method":"ok"`, `"method":"ok","METHOD":"nope"`}
+	c02Method = []string{"", `"method":"ok"`, `"method":"fail"`, `"method":""`, `"method":"nope"`, `"method":"rpc.serverInfo"`, `"method":"rpc.nope"`, `"method":"rpc.a.b"`, `"method":"x.rpc.ok"`, `"method":5`, `"method":null`, `"method":["ok"]`, `"Method":"ok"`, `"method":"ok","METHOD":"nope"`}
 	c02Params = []string{"", `"params":[]`, `"params":[1]`, `"params":{}`, `"params":{"a":1}`, `"params":null`, `"params":0`, `"params":"s"`, `"params":true`}
 	c02Extra  = []string{"", `"x":1`, `"result":1`, `"result":null`, `"error":{"code":1,"message":"m"}`, `"error":5`}
 )
